@@ -836,7 +836,7 @@ def run(rep):
         if (s0, e0) == (0, L):
             s0 = 1
         _enumerate_walks(rep, A, _rand_seq(rng, A, L), rng.choice([1, 1, 2]) if e0 - s0 <= 5 else 1, stats, region=(s0, e0))
-    for k in range(6000 if thorough else 700):
+    for k in range(8000 if thorough else 1200):
         if over(0.52):
             break
         A = rng.choice([2, 3, 4, 4, 5, 6])
@@ -849,25 +849,29 @@ def run(rep):
     mark('walk region/sampled')
 
     # ---- (a') variants of the call: rarely used arguments, alphabets, dtypes, seed kinds, long inputs ----
-    for k in range(4000 if thorough else 450):
+    for k in range(5000 if thorough else 600):
         if over(0.58):
             rep.note('time budget reached inside the variant part after %d cases' % k)
             break
         A = rng.choice([2, 3, 4, 4, 5, 6, 20])
         L = rng.randint(4, 12) if rng.random() < 0.3 else rng.randint(13, 90)
         B = rng.randint(1, 3)
-        seqs = [_rand_seq(rng, A, L) for _ in range(B)]
+        # (mostly high-complexity sequences and regions of length >= 3: dinucleotide_shuffle returns for them)
+        seqs = [_rand_seq(rng, A, L) if rng.random() < 0.25 else ''.join(rng.choice(LETTERS[:A]) for _ in range(L)) for _ in range(B)]
         r = rng.random()
         if r < 0.12:                                    # everything but the seed omitted
             s0, end, defaults = None, None, True
         elif r < 0.45:                                  # explicit negative end: -1 ... -6, both readings non-empty
             s0 = rng.randrange(0, max(L - 8, 1))
             end, defaults = -rng.randint(1, min(6, L - s0 - 1)), False
-        else:
+        elif r < 0.55:
             s0 = rng.randrange(0, L)
             end, defaults = rng.randint(s0 + 1, L), False
+        else:
+            s0 = rng.randrange(0, L - 2)
+            end, defaults = rng.randint(s0 + 3, L), False
         seed = rng.choice([rng.randrange(0, 1000), rng.randrange(0, 2 ** 31 - 8)])
-        dtype = rng.choice(['int8', 'uint8', 'int16', 'int32', 'int64', 'float16', 'float32', 'float64', 'bool'])
+        dtype = rng.choice(['int8', 'uint8', 'uint8', 'int16', 'int16', 'int32', 'int32', 'int64', 'float16', 'float16', 'float32', 'float64', 'float64', 'bool'])
         for fn in ('shuffle', 'dinuc'):
             n = None if defaults else (rng.choice([1, 2, 3, 7]) if fn == 'shuffle' else rng.choice([1, 1, 2, 3, 20]))
             case = {'kind': 'call', 'fn': fn, 'A': A, 'seqs': seqs, 'start': s0, 'end': end, 'n': n, 'seed': seed, 'dtype': dtype, 'det': True,
